@@ -34,6 +34,13 @@ OPEN_STATEMENTS = [
     'tensor pair denoting a Hermitian operator, element-wise Hermitian storage not required) ARE theorems, under the decidable '
     'exact-regime hypothesis bkInteractionOpOk (every += and every _qubit_operator_creation deleted only exact zeros), '
     'evaluated by the driver on every generated tensor',
+    'bravyi_kitaev_fast (bksf.py): edge_operator_b / edge_operator_aij are modelled (exact correspondence for every vertex and '
+    'every oriented edge of seeded graphs) and the edge algebra IS a theorem for every graph without loops (bksf_b_commute, '
+    'bksf_a_b_relation, bksf_a_square_antisymmetric, bksf_a_a_relation) and is re-checked exactly on the implementation\'s '
+    'outputs; NOT modelled / not proved: bravyi_kitaev_fast_edge_matrix, _one_body, _two_body, the assembled Hamiltonian '
+    '(its equivalence with the fermionic one on the stabiliser subspace), vacuum_operator, number_operator',
+    'tree_term_support / tree_car_ann / tree_number_diagonal / tree_equiv_bk ARE theorems (the tree variant has no statement '
+    'left to the oracle only)',
     'isospectrality with Jordan-Wigner / preservation of expectation values are not restated: they follow from bk_exact / '
     'tree_exact + injectivity of enc (the transformed operator is JW conjugated by the relabelling enc); CAR, diagonal '
     'number operators and the vacuum ARE theorems (bk_car, bk_car_ann, bk_number_diagonal, bk_vacuum, tree_car)',
@@ -836,6 +843,90 @@ def stream_hardening(ctx):
     return st
 
 
+def stream_bksf_edges(ctx):
+    """edge operators of the Bravyi-Kitaev superfast transform"""
+    of = ctx.of
+    bksf = importlib.import_module('openfermion.transforms.opconversions.bksf')
+    st = Stream('bksf-edge-operators', 'edge_operator_b / edge_operator_aij of bksf.py on (a) the edge_matrix_indices the '
+                'library derives from seeded random Hermitian InteractionOperators (bravyi_kitaev_fast_edge_matrix, N <= 6) '
+                'and (b) seeded random simple graphs given directly (up to 9 vertices, any column order, both orientations of '
+                'an edge); Model compared exactly for ALL vertices i and ALL ordered pairs (i, j) that are edges; on the '
+                'implementation\'s outputs the edge algebra is checked exactly: B_i B_k = B_k B_i, B_i^2 = 1, A_ij^2 = 1, '
+                'A_ji = -A_ij, A_ij B_k = -/+ B_k A_ij (k in / not in {i,j}), A_ij A_kl = -/+ A_kl A_ij (one / no common vertex); '
+                'distinct = (graph, operator)')
+    rng = rng_for(ctx.seed, 'c05-bksf')
+    graphs = []
+    for k in range(budget(ctx.tier, 10, 60)):
+        N = rng.choice([3, 4, 4, 5, 6])
+        iop = rand_hermitian_iop(rng, of, N, rng.random() < 0.5, rng.choice([0.08, 0.15, 0.3]))
+        ok, em = call(st, 'bravyi_kitaev_fast_edge_matrix', {'N': N}, lambda: bksf.bravyi_kitaev_fast_edge_matrix(iop))
+        if not ok:
+            continue
+        emi = numpy.array(numpy.nonzero(numpy.triu(em) - numpy.diag(numpy.diag(em))))
+        graphs.append(('from-interaction-operator', N, emi))
+    for k in range(budget(ctx.tier, 14, 80)):
+        N = rng.randint(2, 9)
+        pairs = [(a, b) for a in range(N) for b in range(a + 1, N)]
+        rng.shuffle(pairs)
+        pairs = pairs[:rng.randint(1, min(len(pairs), 10))]
+        if k % 3 == 0:
+            pairs.sort()
+        cols = [(a, b) if (k % 2 == 0 or rng.random() < 0.5) else (b, a) for a, b in pairs]
+        emi = numpy.array([[c[0] for c in cols], [c[1] for c in cols]])
+        graphs.append(('given-graph', N, emi))
+    reqs, meta = [], []
+    for kind, N, emi in graphs:
+        E = [[int(emi[0, e]), int(emi[1, e])] for e in range(emi.shape[1])]
+        st.count('graph:%s:edges=%d' % (kind, min(len(E), 10)))
+        ops_b, ops_a = {}, {}
+        for i in range(N):
+            case = {'fn': 'edge_operator_b', 'edges': E, 'i': i}
+            st.case(case)
+            ok, B = call(st, 'edge_operator_b', case, lambda: bksf.edge_operator_b(emi, i))
+            if ok:
+                ops_b[i] = B
+                reqs.append({'op': 'c05.bksf_b', 'edges': E, 'i': i})
+                meta.append(('edge_operator_b', case, enc_op('qubit', B.terms)))
+        for (a, b) in {(e[0], e[1]) for e in E} | {(e[1], e[0]) for e in E}:
+            case = {'fn': 'edge_operator_aij', 'edges': E, 'i': a, 'j': b}
+            st.case(case)
+            ok, A = call(st, 'edge_operator_aij', case, lambda: bksf.edge_operator_aij(emi, a, b))
+            if ok:
+                ops_a[(a, b)] = A
+                reqs.append({'op': 'c05.bksf_a', 'edges': E, 'i': a, 'j': b})
+                meta.append(('edge_operator_aij', case, enc_op('qubit', A.terms)))
+        # the edge algebra, on the implementation's outputs (exact: coefficients are +-1)
+        one = of.QubitOperator(())
+        zero = of.QubitOperator()
+
+        def check(name, lhs, rhs, inp):
+            st.count('algebra:' + name)
+            if not (lhs - rhs) == zero:
+                st.violate('edge algebra violated: ' + name, dict(inp, edges=E), {})
+        for i, B in ops_b.items():
+            check('B_i^2 = 1', B * B, one, {'i': i})
+            for k2, B2 in ops_b.items():
+                if k2 > i:
+                    check('B_i B_k = B_k B_i', B * B2, B2 * B, {'i': i, 'k': k2})
+        for (a, b), A in ops_a.items():
+            check('A_ij^2 = 1', A * A, one, {'i': a, 'j': b})
+            if (b, a) in ops_a:
+                check('A_ji = -A_ij', ops_a[(b, a)], -1 * A, {'i': a, 'j': b})
+            for k2, B2 in ops_b.items():
+                sgn = -1 if k2 in (a, b) else 1
+                check('A_ij B_k = %s B_k A_ij' % ('-' if sgn < 0 else '+'), A * B2, sgn * (B2 * A), {'i': a, 'j': b, 'k': k2})
+            for (c, d2), A2 in ops_a.items():
+                if {c, d2} == {a, b} or (c, d2) <= (a, b):
+                    continue
+                sgn = -1 if len({a, b} & {c, d2}) == 1 else 1
+                check('A_ij A_kl = %s A_kl A_ij' % ('-' if sgn < 0 else '+'), A * A2, sgn * (A2 * A),
+                      {'i': a, 'j': b, 'k': c, 'l': d2})
+    for (what, case, impl), mo in zip(meta, ctx.driver.run(reqs)):
+        if mo is None or canon_op_json(impl) != canon_op_json(mo):
+            st.disagree(what + ': terms differ', case, impl, mo)
+    return st
+
+
 def run(ctx):
     return [stream_sets(ctx), stream_ladder(ctx), stream_srl(ctx), stream_random(ctx), stream_interaction(ctx),
-            stream_hardening(ctx)]
+            stream_bksf_edges(ctx), stream_hardening(ctx)]
